@@ -3,7 +3,7 @@ import json, re
 from common import *
 import impl, l0
 
-THMS = ["C07_path_segments_distinguishable", "C07_double_quoted", "C07_backticked", "C07_bracketed", "C07_quoted_segment_one_token"]
+THMS = ["C07_escape_evaluation_refuted", "C07_path_segments_distinguishable", "C07_double_quoted", "C07_backticked", "C07_bracketed", "C07_quoted_segment_one_token"]
 HEADER = ("From Coq Require Import List NArith Bool.\nFrom MoSql Require Import Model.Lit Model.Ident.\nImport ListNotations.\nOpen Scope N_scope.\n"
           "Definition seqb (x y : list N) : bool := if list_eq_dec N.eq_dec x y then true else false.\n"
           "Fixpoint lseqb (x y : list (list N)) : bool := match x, y with [], [] => true | a :: x', b :: y' => seqb a b && lseqb x' y' | _, _ => false end.\n"
